@@ -84,7 +84,16 @@ pub fn faults(d: &[u8], all_bytes: bool) -> Vec<Fault> {
             news.push((nib << 28) | len);
         }
         let top = w & 0xF000_0000;
-        for l in [0, 1, len.wrapping_sub(1) & 0x0FFF_FFFF, (len + 1) & 0x0FFF_FFFF, 0x0FFF_FFFF] {
+        let mut lens = vec![0, 1, len.wrapping_sub(1) & 0x0FFF_FFFF, (len + 1) & 0x0FFF_FFFF, 0x0FFF_FFFF, 0xFFFF, 0x1_0000];
+        if d.len() > 256 {
+            // lengths around every multiple of 256 that still fits in the document
+            let mut l = 255u32;
+            while (l as usize) < d.len() + 16 {
+                lens.extend((l..l + 12).map(|x| x & 0x0FFF_FFFF));
+                l += 256;
+            }
+        }
+        for l in lens {
             news.push(top | l);
         }
         news.sort();
@@ -150,6 +159,18 @@ fn corpus(tier: Tier) -> Arc<Vec<Vec<u8>>> {
     let mut c: Vec<Vec<u8>> = univ::d2().iter().map(enc).collect();
     let _ = tier;
     c.extend(univ::d1q().iter().map(enc));
+    // larger documents: rewritten lengths and counts need room to be believed
+    let o100 = RVal::Str("o".repeat(100));
+    let big = [
+        RVal::Arr(vec![RVal::Str("o".repeat(300))]),
+        RVal::Arr(vec![RVal::u(70000), RVal::Str("x".repeat(280)), RVal::f(1.5)]),
+        RVal::Arr((0..20).map(|i| RVal::u(i * 1000)).chain([RVal::Str("é".repeat(140))]).collect()),
+        RVal::Arr(vec![o100.clone(), o100.clone(), o100.clone(), RVal::i(-70000)]),
+        RVal::Obj((0..18).map(|i| (format!("key{:02}", i), RVal::Str("v".repeat(12)))).collect()),
+        RVal::obj(vec![("é", RVal::Str("ü".repeat(150))), ("ü", RVal::u(1 << 40))]),
+        RVal::Arr(vec![RVal::Arr(vec![RVal::u(1 << 33), RVal::Str("n".repeat(270))]), RVal::Null]),
+    ];
+    c.extend(big.iter().map(enc));
     c.sort();
     c.dedup();
     Arc::new(c)
